@@ -703,8 +703,9 @@ def check_strace(chk, desc, log, key_dir, models):
         return [o for o in out if o != "mkdir"]     # mkdir is skipped when the directory exists (create_dir_all / harness pre-creates)
     w_, o_ = upto_create(want), upto_create(ops)
     if not any(x.startswith("create") for x in o_):
-        # the traced (first) process lifetime ended before any key was stored: the model's first create belongs to a later lifetime
-        w_ = [x for x in w_ if not x.startswith("create")]
+        # the traced (first) process lifetime ended before any key was stored: what it did is the beginning of the model's sequence
+        # (which goes on through the later lifetimes)
+        w_ = [x for x in w_ if not x.startswith("create")][:len(o_)]
     if o_ != w_:
         chk.disagreement("fs-order", desc, w_, o_)
     seen_chmod = False
